@@ -371,22 +371,29 @@ def _star_rule_removed_by_name(case, what, m):
 PREDICATES = {'star_rule_removed_by_name': _star_rule_removed_by_name}
 
 MANIFEST = dict(
-    text=('Proof (Coq, closed under the global context, for ALL histories without a depth bound): C11_remove_exact_effect '
-          '(RadiDict.remove in exact / prefix "*" / hooks-only mode, with upward pruning and _try_merge, keeps the tree '
-          'well-formed and removes exactly the entries named by the pattern); C11_hook_install_keeps_routes; '
-          'C11_history_tree_matches_index (after any sequence of add / overwrite / rejected add / remove by rule, name, '
-          'prefix / add hook / remove hook / remove_method the tree holds exactly the routes the routes index lists); '
-          'C11_history_eq_fresh_partial (hence every path resolves as the rule-by-rule spec on the surviving index — the same '
-          'equation C01 proves for a freshly built router). PARTIAL: the hook list of a lookup (C11_hooks_fire_exactly) and the '
-          'literal rebuilt-router equality incl. by-name/by-rule/listing (C11_history_eq_fresh) are NOT proved; their full '
-          'statements are kept in coq/props/C11.v. They are covered by the model/implementation correspondence after EVERY '
-          'operation of generated histories and by the oracle, which rebuilds a fresh real router from the surviving '
-          'indexes after every operation and compares resolve (direct and through Ombott.__call__, hooks fired), '
-          'router[name], router[{rule}] and the listings, and checks the hooks fired against the hooks index directly.'),
+    text=('Proof (Coq, every theorem closed under the global context, no depth bound). For ALL histories (add / overwrite / '
+          'rejected add incl. the name conflict that has already inserted its route / remove by rule, name, prefix "*" / add '
+          'and remove hook / remove_method): C11_remove_exact_effect (RadiDict.remove in every mode, with pruning and '
+          '_try_merge, keeps the tree well-formed and removes exactly the named routes), C11_hook_install_keeps_routes, '
+          'C11_history_tree_matches_index, C11_history_eq_fresh_partial (every path resolves as the rule-by-rule spec on the '
+          'surviving index — the equation C01 proves for a freshly built router). Hook slots: '
+          'C11_lookup_collects_held_hooks (on any well-formed tree a lookup collects exactly the hooks held under the '
+          'prefixes of the selected pattern, outermost first, with positions), C11_hook_slots_insert, '
+          'C11_remove_keeps_hooks (route removal keeps every hook = repaired F14; remove_hook removes exactly its hook). '
+          'For all histories WITHOUT prefix-"*" removals: C11_hooks_fire_exactly_partial (hooks collected = hooks-index '
+          'entries whose pattern is a prefix of the matched route, outermost first, at the position after the prefix) and '
+          'C11_same_survivors_same_answers_partial (two reachable routers with the same surviving routes and hooks answer '
+          'every request identically: route, handler, kwargs, hook list). NOT proved (full statements kept in '
+          'coq/props/C11.v): the hook-slot view of the prefix cut; that replaying the surviving indexes on an empty router '
+          'is accepted and reproduces them (the last step to the literal fresh-router equality); the by-rule lookup '
+          'equality. These are covered by the model/implementation correspondence after EVERY operation of generated '
+          'histories and by the oracle, which rebuilds a fresh real router from the surviving indexes after every '
+          'operation and compares resolve (direct and through Ombott.__call__, hooks fired), router[name], router[{rule}] '
+          'and the listings, and checks the hooks fired against the hooks index directly.'),
     note=('Trusted: Coq kernel + vm_compute; extraction; the harness; filt as a section variable. The model is faithful to '
-          'the code with fixes F14, F15 and F33 (found while building this check). Admissible histories for the oracle: '
-          'prefix removal only when no hook lies under the removed prefix (the property restricts it to routes); the '
-          'proved theorems need no such restriction because they speak about routes only.'),
-    technique='Coq proof (invariant over edit histories, induction on the tree) + correspondence + fresh-router oracle',
+          'the code with fixes F14, F15 and F33 (found while building this check). Oracle admissibility: prefix removal only '
+          'when no hook lies under the removed prefix (the property restricts it to routes). 404 partial-hook behaviour is '
+          'modelled and compared by the correspondence, not covered by a theorem.'),
+    technique='Coq proof (invariants over edit histories, induction on the tree) + correspondence + fresh-router oracle',
     design_ref='DESIGN.md section 4, C11; Appendix A.4',
 )
